@@ -117,7 +117,7 @@ func checkC27(c *vlib.Ctx) {
 	}
 	c.Extra("cases_per_family", fam)
 	if c.Quick() {
-		c.Floor(4000)
+		c.Floor(2500)
 	} else {
 		c.Floor(60000)
 	}
